@@ -328,9 +328,13 @@ def iter_count_rule(ctx, rule, prog, crate):
         # `x as u64`, `u64::from(x)`, `x.into()` with a 64-bit (or wider) result
         if x[0] == "cast" and x[1] in ("u64", "u128", "usize"):
             return x[2]
-        if x[0] in ("site", "call") and x[1].endswith(("::from", "::into")) and ("u64" in x[1] or "u128" in x[1]):
+        if x[0] in ("site", "call") and x[1].endswith(("::from", "::into")):
+            wide = "u64" in x[1] or "u128" in x[1]
+            if not wide and x[0] == "site":
+                c = ic.call_at(x[2])
+                wide = c is not None and (c.dest or {}).get("ty") in ("u64", "u128")
             a = x[3] if x[0] == "site" else x[2]
-            return a[0] if a else None
+            return a[0] if a and wide else None
         return None
     good = False
     if ok and e[0] == "mul" and len(e[1]) == 2:
